@@ -818,6 +818,11 @@ class Effects:
             return out
         if isinstance(fn, ast.Name) and fn.id == "complex":
             return out
+        if isinstance(fn, ast.Name) and fn.id in ("set", "frozenset") and self.repo.local_alias(fn.id, fi) is None:
+            # building a set hashes its members
+            if c.args:
+                out.append(self.esc("TypeError", True, fi, c, "hash"))
+            return out
         # call of a parameter holding a type (``type_(...)``)
         if isinstance(fn, ast.Name) and self._param_annot(fn, fi) == "type":
             if c.args:
